@@ -135,6 +135,8 @@ def run_case(mod, sig, name, sym_inputs, base_constraints, oracle, budget=120, a
     returns CaseResult; violations carry a concrete model of all symbolic inputs"""
     R = CaseResult()
     ex = irsym.Executor(mod, timeout=budget, max_paths=max_paths)
+    from ir import rbtree
+    rbtree.install(ex)
     st = ex.new_state(); st.pc = list(base_constraints)
     args = []; ptrs = {}
     for s in sig.spec:
@@ -225,6 +227,8 @@ def run_case(mod, sig, name, sym_inputs, base_constraints, oracle, budget=120, a
 def concrete_run(mod, sig, values, budget=60):
     """run the interpreter on fully concrete inputs; returns dict like Native.run"""
     ex = irsym.Executor(mod, timeout=budget)
+    from ir import rbtree
+    rbtree.install(ex)
     st = ex.new_state(); args = []; ptrs = {}
     for s in sig.spec:
         v = values[s[1]]
